@@ -143,6 +143,7 @@ func runC05(r *mc.Run) {
 		bound = 4
 	}
 	pckCrlURL := world.URLPckCrl("platform")
+	fInterNYV := world.MakeCert(world.CertSpec{CN: world.CNPlatform, IsCA: true, Key: F.InterKey, MaxPathLen: -1, NotBefore: world.T0.AddDate(0, 0, 1), NotAfter: world.T0.AddDate(10, 0, 0)}, F.Root, F.RootKey)
 	r.Explore("revocation-worlds", bound, func(c *mc.Ctx) {
 		e := envs[c.Choose("serial-shape", len(envs))]
 		w, pki, tcb2, tcb2Key, rootDP := e.w, e.pki, e.tcb2, e.tcb2Key, e.rootDP
@@ -155,7 +156,7 @@ func runC05(r *mc.Run) {
 		pep := c.Choose("pck.endpoint", len(endpoints))
 		rep := c.Choose("root.endpoint", len(endpoints))
 		dp := c.Choose("root.dps", len(dps))
-		ph := c.Choose("pck.header", 5)
+		ph := c.Choose("pck.header", 7)
 		opt := c.Choose("options", 3)
 		id := "crl/" + c.ID()
 		if !r.Want(id) {
@@ -197,6 +198,10 @@ func runC05(r *mc.Run) {
 			pckHdr = map[string][]string{world.HdrPckCrl: {world.IssuerChainHeader(pckSigners[psg].issuer, pki.Root)}}
 		case 4: // the root CA's own chain
 			pckHdr = map[string][]string{world.HdrPckCrl: {world.IssuerChainHeader(pki.Root, pki.Root)}}
+		case 5: // look-alike chain whose CA certificate is not yet valid (a validity error must not replace the trust decision)
+			pckHdr = map[string][]string{world.HdrPckCrl: {world.IssuerChainHeader(fInterNYV, F.Root)}}
+		case 6: // ... under the genuine root
+			pckHdr = map[string][]string{world.HdrPckCrl: {world.IssuerChainHeader(fInterNYV, pki.Root)}}
 		}
 		g.Responses[pckCrlURL] = serve(endpoints[pep], pckCrl, rootCrl, fPck, pckHdr)
 		rootResp := serve(endpoints[rep], rootCrl, pckCrl, fRoot, nil)
